@@ -14,13 +14,30 @@ from pyvc.values import SAbs, SSeq, SObj
 from pyvc.ops import raise_
 
 
-def _abs(kind, py_type):
-    return SAbs(kind, V.fresh_int(kind), py_type)
+def _abs(kind, py_type, attrs=None):
+    return SAbs(kind, V.fresh_int(kind), py_type, attrs)
+
+
+def _some_key_type():
+    """key_type of an external public key object: some member of Authentication (over-approximation)"""
+    from cryptodatahub.common.algorithm import Authentication
+    P = E.cur()
+    idx = V.fresh_int('key_type')
+    P.assume(z3.And(idx >= 0, idx < len(list(Authentication))))
+    return V.SEnum(Authentication, idx)
+
+
+def _some_params():
+    from cryptodatahub.common.algorithm import NamedGroup
+    P = E.cur()
+    idx = V.fresh_int('named_group')
+    P.assume(z3.And(idx >= 0, idx < len(list(NamedGroup))))
+    return _abs('PublicKeyParams', object, dict(named_group=V.SEnum(NamedGroup, idx), modulus=V.SInt(V.fresh_int('modulus'))))
 
 
 def m_from_params(cls, params):
     models.used('cryptodatahub PublicKey.from_params(params): returns a PublicKey for any parameter object (never raises)')
-    return _abs('PublicKey', CK.PublicKey)
+    return _abs('PublicKey', CK.PublicKey, dict(key_type=_some_key_type(), params=_some_params()))
 
 
 def m_from_octet_bit_string(cls, named_group, data):
@@ -42,12 +59,12 @@ def m_from_der(cls, der):
     if P.choose('from_der ValueError'):
         P.overapprox.append('PublicKeyX509.from_der ValueError (assumed raise-set)')
         raise_(ValueError, 'Insufficient data')
-    return _abs('PublicKeyX509', cls)
+    return _abs('PublicKeyX509', cls, dict(key_type=_some_key_type(), params=_some_params()))
 
 
 def m_from_log_id(cls, log_id):
     models.used('cryptodatahub CertificateTransparencyLog.from_log_id: returns a known or an "unknown" log object (never raises)')
-    return _abs('CertificateTransparencyLog', object)
+    return _abs('CertificateTransparencyLog', CS.CertificateTransparencyLogParamsBase)
 
 
 def m_ip_network(addr, *a, **k):
